@@ -16,12 +16,13 @@ import (
 	"go.miragespace.co/specter/spec/protocol"
 	"go.miragespace.co/specter/spec/tun"
 
+	"verif/engine/e2"
 	"verif/engine/hmain"
 	"verif/engine/report"
 )
 
 func init() {
-	props["C26"] = hmain.Prop{Level: "model_checking", Run: c26, Replay: c26Replay}
+	props["C26"] = hmain.Prop{Level: "model_checking", Run: c26, Worker: e2.Worker(c26ConcLookup), Replay: c26Replay}
 }
 
 // ---------------------------------------------------------------------------
@@ -680,9 +681,10 @@ func c26(c *report.Check) {
 	c.Set("rule", fmt.Sprintf("breadth-first over histories of length <= %d of two clients (X v1 certificate, Y v2 certificate, each claiming the other's identity in the stream delegation) x {GenerateHostname, PublishTunnel(host x %d server lists), UnpublishTunnel(host), ReleaseTunnel(host)} with host in {hx,hy,cx,g0,g1,nobody,\"\"}; every op of the full alphabet is checked from every explored state, states reached by publish with server lists %v / gen / unpublish / release are expanded, de-duplicated on the normalised DHT snapshot; class = (op kind, host class, server list, success)", depth, len(c26ServerVariants), c26ExpandServers))
 	c.Set("samples", dist.Samples)
 	c.Set("exhaustive", true)
+	c26Conc(c) // schedule-exploration leg (interleavings of two calls)
 	c.Assume("handlers are called directly with rpc.WithDelegation contexts (the registration hook is C25's subject); DHT = one real memory KV; destination records, registrations and generated hostnames of the initial state are produced by the real code, the custom-hostname binding by the two KV calls AcmeValidate makes",
 		"ownership model = initial registrations + successful GenerateHostname - successful ReleaseTunnel; the statement does not say that a well-formed publish by the owner must succeed, so failures of owners are only counted",
-		"sequential histories only (the lease is acquired and released inside each call)")
+		"the history search is sequential; interleavings of two calls are covered by the scheduler leg (conc_* keys) within its deviation bound, with KV operations as atomic steps and real time only used for lease expiry (30 s, never reached)")
 }
 
 func hostClass(h string) string {
@@ -696,6 +698,9 @@ func c26Replay(c *report.Check, raw []byte) {
 	var j struct {
 		Path []c26Op `json:"path"`
 		Op   c26Op   `json:"op"`
+	}
+	if c26ConcReplay(c, raw) {
+		return
 	}
 	if err := json.Unmarshal(raw, &j); err != nil || j.Op.Kind == "" {
 		c.Internal("c26 replay: bad object")
